@@ -128,9 +128,33 @@ module LMix #(
         q = t ^ (t >> 1);
     }
 }
+
+module LGate #(
+    param W: u32 = 8,
+    param K: u32 = 1,
+) (
+    clk: input  '_ clock   ,
+    rst: input  '_ reset   ,
+    d  : input  '_ logic<W>,
+    q  : output '_ logic<W>,
+) {
+    var big  : '_ logic<32> [64];
+    let en   : '_ logic = d[0] | d[1];
+    let clk_g: '_ clock = clk & en;
+    var r    : '_ logic<W>;
+    always_ff (clk_g, rst) {
+        if_reset {
+            r = 0;
+        } else {
+            r           = r + d + K as W;
+            big[r[3:0]] = r as 32;
+        }
+    }
+    assign q = r ^ (big[d[3:0]] as W);
+}
 """
 
-LEAVES = ["LAcc", "LPipe", "LComb", "LMix"]
+LEAVES = ["LAcc", "LPipe", "LComb", "LMix", "LGate"]
 
 
 def leaf_spec(rng):
@@ -142,6 +166,8 @@ def leaf_spec(rng):
         return ("LPipe::<%d>" % rng.choice([1, 2, 3, 5, 8]), {})
     if k == "LComb":
         return ("LComb", {"K": rng.choice([0, 1, 5, 9, 1023])})
+    if k == "LGate":
+        return ("LGate", {"K": rng.choice([1, 3, 4, 250])})
     return ("LMix", {"K": rng.choice([1, 2, 3, 17])})
 
 
@@ -201,7 +227,7 @@ def gen_suite(rng, idx):
     while len(pool) < npool:
         w = rng.choice(wpool)
         if rng.random() < 0.65:
-            spec = (rng.choice(wrappers), {"P": rng.choice([1, 3, 9, 33]), "W": w})
+            spec = (rng.choice(wrappers), {"P": rng.choice([1, 3, 9, 70]), "W": w})
         else:
             mod, pr = leaf_spec(rng)
             pr = dict(pr)
@@ -290,13 +316,14 @@ def gen_suite(rng, idx):
         "wrapper_depth": 2 if any(any(k.startswith("Wr") for k in wmeta[w]["kids"]) for w in wmeta) else 1,
         "wide": any(p["W"] > 64 for tt in tests for _, p in tt["duts"]),
         "failing_tests": sum(1 for tt in tests if tt["kind"] != "pass"),
+        "gated_clock": ("LGate" in " ".join(m for tt in tests for m, _ in tt["duts"])) or any("LGate" in wmeta[w]["kids"] for w in wmeta),
     }
     backend = rng.choice(["cranelift"] * 5 + ["interpret"] * 3 + ["cc"] * 2)
     opts = {
         "backend": backend,
         "four_state": rng.random() < 0.25,
         "wave": rng.random() < 0.4,
-        "min_bytes": rng.choice([None, None, 0]),
+        "min_bytes": rng.choice([None, 0]),
     }
     return {"name": "s%03d" % idx, "lib": lib, "tests": tests, "tags": tags, "opts": opts, "wrappers": wmeta}
 
